@@ -50,6 +50,10 @@ func LoadHIDIConfig(path string) (HIDIConfig, error) {
 		return HIDIConfig{}, err
 	}
 
+	if rawConfig.HIDI.PoolRate <= 0 || rawConfig.HIDI.DiscoveryRate <= 0 {
+		return HIDIConfig{}, fmt.Errorf("pool_rate and discovery_rate must be positive numbers")
+	}
+
 	var config HIDIConfig
 
 	config.HIDI.EVThrottling = time.Second / time.Duration(rawConfig.HIDI.PoolRate)
